@@ -441,7 +441,8 @@ fn run_hilbert_list<const D: usize>(coords: &[[f64; D]], bounds: (f64, f64), nbi
     let valid = (1..=31).contains(&nbits) && (D as u32) * nbits <= 128;
     let rp = |func: &str| list_replay(coords, bounds, nbits, fam, func);
     out.eval();
-    out.count(&format!("hilbert_list/D{}/{}", D, fam));
+    out.count(&format!("hilbert_list/D{}", D));
+    out.count(&format!("hilbert_list/family/{}", fam));
     let distinct_pts: HashSet<[u64; D]> = coords.iter().map(|c| c.map(f64::to_bits)).collect();
     if distinct_pts.len() >= 2 {
         out.nontrivial(&format!("hl|{}|{}|{:016x}|{:016x}|{:?}", D, nbits, bounds.0.to_bits(), bounds.1.to_bits(), coords.iter().map(|c| c.map(f64::to_bits)).collect::<Vec<_>>()));
@@ -601,7 +602,14 @@ fn quantize_checks<const D: usize>(coords: &[[f64; D]], bounds: (f64, f64), nbit
     // monotonicity over the list extended by the two end points
     let mut checked = 0u64;
     for j in 0..D {
-        let mut col: Vec<(f64, u32)> = coords.iter().zip(qs.iter()).filter(|(c, _)| c[j].is_finite() && c[j].abs() <= 1e307).map(|(c, q)| (c[j], q[j])).collect();
+        // Points whose normalised value (c - min) / extent is not finite in f64 take the
+        // implementation's stated "non-finite -> cell 0" fallback and are not judged.
+        let judged = |c: f64| c.is_finite() && ((c - lo) / extent).is_finite();
+        let skipped = coords.iter().zip(qs.iter()).filter(|(c, _)| c[j].is_finite() && !judged(c[j])).count() as u64;
+        if skipped > 0 {
+            out.add("hilbert_quantize/not_judged(normalisation overflows, falls back to cell 0)", skipped);
+        }
+        let mut col: Vec<(f64, u32)> = coords.iter().zip(qs.iter()).filter(|(c, _)| judged(c[j])).map(|(c, q)| (c[j], q[j])).collect();
         col.push((lo, 0));
         col.push((hi, maxq));
         col.sort_by(|a, b| a.0.partial_cmp(&b.0).unwrap_or(Ordering::Equal));
@@ -701,4 +709,1025 @@ fn gen_hilbert_list<const D: usize>(rng: &mut Rng) -> (Vec<[f64; D]>, (f64, f64)
         }
     }
     (pts, bounds, nbits, fam)
+}
+
+// =============================================================================================
+// Part C: dedup helpers
+// =============================================================================================
+
+#[derive(Clone, Debug, PartialEq)]
+struct VRec<const D: usize> {
+    uuid: Uuid,
+    p: [f64; D],
+    data: Option<i32>,
+}
+
+fn to_vertex<const D: usize>(r: &VRec<D>) -> Vertex<f64, i32, D> {
+    mk_vertex::<i32, D>(r.p, r.uuid, r.data.map(i64::from))
+}
+fn from_vertex<const D: usize>(v: &Vertex<f64, i32, D>) -> VRec<D> {
+    VRec { uuid: v.uuid(), p: *v.point().coords(), data: v.data }
+}
+fn vrec_json<const D: usize>(v: &[VRec<D>]) -> Value {
+    Value::Array(v.iter().map(|r| json!({"x": r.p.to_vec(), "bits": bits(&r.p), "uuid": r.uuid.to_string(), "data": r.data})).collect())
+}
+
+/// Coordinate class under the library's documented equality (OrderedFloat: NaN == NaN, +0 == -0).
+fn class_key<const D: usize>(p: &[f64; D]) -> [u64; D] {
+    p.map(|x| if x.is_nan() { 0x7ff8_0000_0000_0000 } else if x == 0.0 { 0 } else { x.to_bits() })
+}
+
+/// Maps every output record to a distinct input record with identical UUID, coordinate bits and
+/// data (earliest unused input first). Err = invention or duplication.
+fn match_submultiset<const D: usize>(input: &[VRec<D>], output: &[VRec<D>]) -> Result<Vec<usize>, String> {
+    let mut pool: HashMap<(u128, [u64; D], Option<i32>), VecDeque<usize>> = HashMap::new();
+    for (i, r) in input.iter().enumerate() {
+        pool.entry((r.uuid.as_u128(), r.p.map(f64::to_bits), r.data)).or_default().push_back(i);
+    }
+    let mut m = Vec::with_capacity(output.len());
+    for (k, r) in output.iter().enumerate() {
+        match pool.get_mut(&(r.uuid.as_u128(), r.p.map(f64::to_bits), r.data)).and_then(VecDeque::pop_front) {
+            Some(i) => m.push(i),
+            None => {
+                let known = input.iter().any(|x| x.uuid == r.uuid);
+                return Err(format!(
+                    "output[{}] (uuid {}, coords {:?}, data {:?}) {}",
+                    k,
+                    r.uuid,
+                    r.p,
+                    r.data,
+                    if known { "matches an input UUID but was altered or is returned more often than it was supplied" } else { "does not occur in the input" }
+                ));
+            }
+        }
+    }
+    Ok(m)
+}
+
+fn check_exact<const D: usize>(input: &[VRec<D>], output: &[VRec<D>]) -> (Vec<Finding>, bool) {
+    let mut f = Vec::new();
+    let m = match match_submultiset(input, output) {
+        Ok(m) => m,
+        Err(e) => {
+            f.push(finding("not_from_input", e));
+            return (f, false);
+        }
+    };
+    let mut seen: HashMap<[u64; D], usize> = HashMap::new();
+    for (k, r) in output.iter().enumerate() {
+        if let Some(prev) = seen.insert(class_key(&r.p), k) {
+            f.push(finding("duplicate_kept", format!("outputs {} and {} have equal coordinate tuples {:?} / {:?}", prev, k, output[prev].p, r.p)));
+            return (f, false);
+        }
+    }
+    let mut first: HashMap<[u64; D], usize> = HashMap::new();
+    for (i, r) in input.iter().enumerate() {
+        first.entry(class_key(&r.p)).or_insert(i);
+    }
+    for (key, i) in &first {
+        if !seen.contains_key(key) {
+            f.push(finding("unique_dropped", format!("input {} with coordinates {:?} has no representative in the output ({} distinct tuples in, {} out)", i, input[*i].p, first.len(), output.len())));
+            return (f, false);
+        }
+    }
+    // documented detail, counted only: the representative is the first occurrence
+    let first_kept = m.iter().zip(output.iter()).all(|(&i, r)| first[&class_key(&r.p)] == i);
+    (f, first_kept)
+}
+
+#[derive(Default)]
+struct DistStats {
+    fast: u64,
+    exact: u64,
+}
+
+/// Exact comparison of |a-b|^2 with thr^2 (thr finite, >= 0). f64 shortcut only when the
+/// rounded values are separated by far more than the rounding error of the f64 evaluation.
+fn d2_cmp<const D: usize>(a: &[f64; D], b: &[f64; D], thr: f64, st: &mut DistStats) -> Ordering {
+    let mut d2f = 0.0f64;
+    for j in 0..D {
+        let d = a[j] - b[j];
+        d2f += d * d;
+    }
+    let t2f = thr * thr;
+    if d2f.is_finite() && t2f.is_finite() && d2f < 1e280 && t2f < 1e280 && (d2f - t2f).abs() > 1e-9 * d2f.max(t2f) + 1e-290 {
+        st.fast += 1;
+        return d2f.partial_cmp(&t2f).unwrap();
+    }
+    st.exact += 1;
+    let t = Dy::from_f64(thr);
+    exact::dist2(a, b).cmp(&t.mul(&t))
+}
+
+fn eps_regime<const D: usize>(input: &[VRec<D>], eps: f64) -> &'static str {
+    let e2 = eps * eps;
+    if eps > 0.0 && e2 < 1e-290 {
+        "eps_sq_underflow"
+    } else if !e2.is_finite() || eps > 1e150 || input.iter().any(|v| v.p.iter().any(|x| x.abs() > 1e150)) {
+        "overflow_range"
+    } else {
+        "normal"
+    }
+}
+
+/// Epsilon dedup judged with a 0.1 % margin on either side of the tolerance: survivors closer
+/// than 0.999 eps, or a dropped vertex farther than 1.001 eps from every survivor, refute.
+fn check_epsilon<const D: usize>(input: &[VRec<D>], output: &[VRec<D>], eps: f64, st: &mut DistStats) -> Vec<Finding> {
+    let mut f = Vec::new();
+    let m = match match_submultiset(input, output) {
+        Ok(m) => m,
+        Err(e) => {
+            f.push(finding("not_from_input", e));
+            return f;
+        }
+    };
+    if input.iter().any(|r| r.p.iter().any(|x| !x.is_finite())) || !eps.is_finite() || eps < 0.0 {
+        return f; // distances undefined: only the sub-multiset clause is judged
+    }
+    let near = 0.999 * eps;
+    let far = 1.001 * eps;
+    if near > 0.0 {
+        'o: for a in 0..output.len() {
+            for b in a + 1..output.len() {
+                if d2_cmp(&output[a].p, &output[b].p, near, st) == Ordering::Less {
+                    let l2 = exact::dist2(&output[a].p, &output[b].p).log2_abs() / 2.0;
+                    f.push(finding("survivors_too_close", if l2 == f64::NEG_INFINITY {
+                        format!("survivors {:?} and {:?} coincide (distance 0) although eps = {:e} > 0", output[a].p, output[b].p, eps)
+                    } else {
+                        format!("survivors {:?} and {:?} are at exact distance 2^{:.3} (~1e{:.2}) < 0.999 * eps (eps = {:e})", output[a].p, output[b].p, l2, l2 * std::f64::consts::LOG10_2, eps)
+                    }));
+                    break 'o;
+                }
+            }
+        }
+    }
+    if far.is_finite() {
+        let mut used = vec![false; input.len()];
+        for &i in &m {
+            used[i] = true;
+        }
+        for (i, r) in input.iter().enumerate() {
+            if used[i] {
+                continue;
+            }
+            let covered = output.iter().any(|s| d2_cmp(&r.p, &s.p, far, st) != Ordering::Greater);
+            if !covered {
+                f.push(finding("dropped_far_from_survivors", format!("input {} at {:?} was dropped but no survivor lies within 1.001 * eps (eps = {:e}, {} survivors)", i, r.p, eps, output.len())));
+                break;
+            }
+        }
+    }
+    f
+}
+
+fn check_filter<const D: usize>(input: &[VRec<D>], reference: &[VRec<D>], output: &[VRec<D>]) -> (Vec<Finding>, bool) {
+    let mut f = Vec::new();
+    let m = match match_submultiset(input, output) {
+        Ok(m) => m,
+        Err(e) => {
+            f.push(finding("not_from_input", e));
+            return (f, false);
+        }
+    };
+    let excl: HashSet<[u64; D]> = reference.iter().map(|r| class_key(&r.p)).collect();
+    let expected: Vec<usize> = (0..input.len()).filter(|&i| !excl.contains(&class_key(&input[i].p))).collect();
+    let mut got = m.clone();
+    got.sort_unstable();
+    if got != expected {
+        let kept_excluded = got.iter().find(|i| !expected.contains(i));
+        let lost = expected.iter().find(|i| !got.contains(i));
+        f.push(finding(
+            "wrong_result",
+            format!("expected the {} inputs not matching a reference, got {}; excluded-but-kept input: {:?}, kept-but-missing input: {:?}", expected.len(), got.len(), kept_excluded.map(|&i| input[i].p), lost.map(|&i| input[i].p)),
+        ));
+        return (f, false);
+    }
+    (f, m == expected)
+}
+
+fn dedup_replay<const D: usize>(func: &str, input: &[VRec<D>], reference: Option<&[VRec<D>]>, eps: Option<f64>, fam: &str) -> Value {
+    json!({
+        "property": P, "kind": "dedup", "D": D, "function": func, "family": fam,
+        "tolerance": eps, "tolerance_bits": eps.map(|e| format!("{:016x}", e.to_bits())),
+        "vertices": vrec_json(input), "reference": reference.map(vrec_json),
+    })
+}
+
+fn ident_list<const D: usize>(tag: &str, input: &[VRec<D>], extra: u64) -> String {
+    format!("{}|{}|{:x}|{:?}", tag, D, extra, input.iter().map(|r| r.p.map(f64::to_bits)).collect::<Vec<_>>())
+}
+
+fn nontrivial_list<const D: usize>(input: &[VRec<D>]) -> bool {
+    let classes: HashSet<[u64; D]> = input.iter().map(|r| class_key(&r.p)).collect();
+    classes.len() >= 2
+}
+
+fn run_dedup_exact<const D: usize>(input: &[VRec<D>], fam: &str, out: &mut Out) {
+    out.eval();
+    out.count(&format!("dedup_exact/D{}", D));
+    out.count(&format!("dedup/family/{}", fam));
+    if nontrivial_list(input) {
+        out.nontrivial(&ident_list("de", input, 0));
+    }
+    let verts: Vec<Vertex<f64, i32, D>> = input.iter().map(to_vertex).collect();
+    match guard(|| dedup_vertices_exact(&verts)) {
+        Err(pi) => out.panic(P, &pi, "dedup_vertices_exact", dedup_replay("dedup_vertices_exact", input, None, None, fam)),
+        Ok(res) => {
+            let output: Vec<VRec<D>> = res.iter().map(from_vertex).collect();
+            out.add("dedup_exact/vertices_in", input.len() as u64);
+            out.add("dedup_exact/vertices_dropped", (input.len().saturating_sub(output.len())) as u64);
+            let (fs, first_kept) = check_exact(input, &output);
+            if fs.is_empty() {
+                out.count(if first_kept { "dedup_exact/first_occurrence_kept" } else { "dedup_exact/first_occurrence_NOT_kept(documented detail)" });
+            }
+            for f in fs {
+                out.violation(P, &format!("dedup_exact/{}", f.sig), format!("dedup_vertices_exact: {}", f.desc), dedup_replay("dedup_vertices_exact", input, None, None, fam));
+            }
+        }
+    }
+}
+
+fn run_dedup_epsilon<const D: usize>(input: &[VRec<D>], eps: f64, fam: &str, out: &mut Out, st: &mut DistStats) {
+    out.eval();
+    let regime = eps_regime(input, eps);
+    out.count(&format!("dedup_epsilon/D{}", D));
+    out.count(&format!("dedup_epsilon/regime/{}", regime));
+    if nontrivial_list(input) {
+        out.nontrivial(&ident_list("dp", input, eps.to_bits()));
+    }
+    let verts: Vec<Vertex<f64, i32, D>> = input.iter().map(to_vertex).collect();
+    match guard(|| dedup_vertices_epsilon(&verts, eps)) {
+        Err(pi) => out.panic(P, &pi, "dedup_vertices_epsilon", dedup_replay("dedup_vertices_epsilon", input, None, Some(eps), fam)),
+        Ok(res) => {
+            let output: Vec<VRec<D>> = res.iter().map(from_vertex).collect();
+            out.add("dedup_epsilon/vertices_in", input.len() as u64);
+            out.add("dedup_epsilon/vertices_dropped", (input.len().saturating_sub(output.len())) as u64);
+            for f in check_epsilon(input, &output, eps, st) {
+                let sig = if regime == "normal" || f.sig == "not_from_input" { format!("dedup_epsilon/{}", f.sig) } else { format!("dedup_epsilon/{}/{}", f.sig, regime) };
+                out.violation(P, &sig, format!("dedup_vertices_epsilon (regime {}): {}", regime, f.desc), dedup_replay("dedup_vertices_epsilon", input, None, Some(eps), fam));
+            }
+        }
+    }
+}
+
+fn run_filter<const D: usize>(input: &[VRec<D>], reference: &[VRec<D>], fam: &str, out: &mut Out) {
+    out.eval();
+    out.count(&format!("filter_excluding/D{}", D));
+    if nontrivial_list(input) && !reference.is_empty() {
+        out.nontrivial(&format!("{}#{}", ident_list("fx", input, reference.len() as u64), ident_list("ref", reference, 0)));
+    }
+    let verts: Vec<Vertex<f64, i32, D>> = input.iter().map(to_vertex).collect();
+    let refs: Vec<Vertex<f64, i32, D>> = reference.iter().map(to_vertex).collect();
+    match guard(|| filter_vertices_excluding(&verts, &refs)) {
+        Err(pi) => out.panic(P, &pi, "filter_vertices_excluding", dedup_replay("filter_vertices_excluding", input, Some(reference), None, fam)),
+        Ok(res) => {
+            let output: Vec<VRec<D>> = res.iter().map(from_vertex).collect();
+            out.add("filter_excluding/vertices_excluded", (input.len().saturating_sub(output.len())) as u64);
+            let (fs, in_order) = check_filter(input, reference, &output);
+            if fs.is_empty() {
+                out.count(if in_order { "filter_excluding/input_order_preserved" } else { "filter_excluding/input_order_NOT_preserved(undocumented)" });
+            }
+            for f in fs {
+                out.violation(P, &format!("filter_excluding/{}", f.sig), format!("filter_vertices_excluding: {}", f.desc), dedup_replay("filter_vertices_excluding", input, Some(reference), None, fam));
+            }
+        }
+    }
+}
+
+fn rec<const D: usize>(rng: &mut Rng, p: [f64; D], k: usize) -> VRec<D> {
+    VRec { uuid: rng.uuid(), p, data: if rng.chance(1, 5) { None } else { Some(k as i32 - 7) } }
+}
+
+/// Adversarial vertex lists for the dedup helpers: (list, epsilon, family, finite?)
+fn gen_dedup_list<const D: usize>(rng: &mut Rng) -> (Vec<VRec<D>>, f64, &'static str) {
+    let mut pts: Vec<[f64; D]> = Vec::new();
+    let fam: &'static str;
+    let eps: f64;
+    let n = 2 + rng.usize(38);
+    match rng.usize(10) {
+        0 => {
+            fam = "dyadic_dups";
+            let m = 1 + rng.range_i64(1, 4);
+            for _ in 0..n {
+                let mut p = [0.0; D];
+                for x in p.iter_mut() {
+                    *x = rng.range_i64(0, m) as f64 / 4.0;
+                }
+                pts.push(p);
+            }
+            eps = *rng.pick(&[0.0, 0.25, 0.3, 0.5, 1e-10, 0.75, 0.2500000000000001]);
+        }
+        1 => {
+            fam = "signed_zeros";
+            let vals = [0.0, -0.0, 1.0, -1.0, 5e-324, -5e-324];
+            for _ in 0..n {
+                let mut p = [0.0; D];
+                for x in p.iter_mut() {
+                    *x = *rng.pick(&vals);
+                }
+                pts.push(p);
+            }
+            eps = *rng.pick(&[0.0, 1e-10, 1.0, 0.5, 1.5]);
+        }
+        2 => {
+            fam = "clusters";
+            let s = 2f64.powi(rng.range_i64(-20, 20) as i32);
+            eps = s * *rng.pick(&[1e-3, 0.01, 0.1, 0.37]);
+            let nc = 1 + rng.usize(5);
+            let centres: Vec<[f64; D]> = (0..nc)
+                .map(|_| {
+                    let mut c = [0.0; D];
+                    for x in c.iter_mut() {
+                        *x = (rng.f64() * 8.0 - 4.0) * s;
+                    }
+                    c
+                })
+                .collect();
+            let steps = [0.0, 0.3, 0.6, 0.9, 0.9985, 0.9995, 1.0, 1.0005, 1.0015, 1.1, 2.5];
+            for _ in 0..n {
+                let mut p = *rng.pick(&centres);
+                let u = *rng.pick(&steps);
+                if rng.bool() {
+                    let j = rng.usize(D);
+                    p[j] += u * eps * if rng.bool() { 1.0 } else { -1.0 };
+                } else {
+                    let mut dir = [0.0; D];
+                    let mut nn = 0.0;
+                    for x in dir.iter_mut() {
+                        *x = rng.f64() * 2.0 - 1.0;
+                        nn += *x * *x;
+                    }
+                    let nn = nn.sqrt().max(1e-9);
+                    for j in 0..D {
+                        p[j] += dir[j] / nn * u * eps;
+                    }
+                }
+                pts.push(p);
+            }
+        }
+        3 => {
+            fam = "chain";
+            eps = 2f64.powi(rng.range_i64(-30, 4) as i32);
+            let step = eps * *rng.pick(&[0.25, 0.5, 0.75, 1.0, 1.25, 0.999, 1.001]);
+            let j = rng.usize(D);
+            let start = rng.range_i64(-4, 4) as f64 * eps;
+            let mut order: Vec<usize> = (0..n).collect();
+            if rng.bool() {
+                rng.shuffle(&mut order);
+            }
+            for i in order {
+                let mut p = [start; D];
+                p[j] = start + i as f64 * step;
+                pts.push(p);
+            }
+        }
+        4 => {
+            fam = "random53";
+            for _ in 0..n {
+                let mut p = [0.0; D];
+                for x in p.iter_mut() {
+                    *x = rng.f64() * 2.0 - 1.0;
+                }
+                pts.push(p);
+            }
+            eps = *rng.pick(&[1e-3, 0.05, 0.2, 0.5, 1.0]);
+        }
+        5 => {
+            fam = "extreme_coords";
+            let vals = [1e300, -1e300, 1e-300, 5e-324, 1e150, -1e150, 1.0, 0.0, -0.0, 1e-160, 1.0000000000000002e300, 1e200, 1.0000000000000002e200];
+            for _ in 0..n {
+                let mut p = [0.0; D];
+                for x in p.iter_mut() {
+                    *x = *rng.pick(&vals);
+                }
+                pts.push(p);
+            }
+            eps = *rng.pick(&[1.0, 1e-10, 1e290, 1e190, 1e140, 1e-300, 0.0]);
+        }
+        6 => {
+            fam = "tiny_scale";
+            let s = *rng.pick(&[1e-200, 1e-160, 1e-100, 1e-140]);
+            for _ in 0..n {
+                let mut p = [0.0; D];
+                for x in p.iter_mut() {
+                    *x = rng.range_i64(-3, 3) as f64 * s;
+                }
+                pts.push(p);
+            }
+            eps = s * *rng.pick(&[0.5, 1.5, 3.5]);
+        }
+        7 => {
+            fam = "nonfinite";
+            let vals = [f64::NAN, f64::from_bits(0xfff8_0000_0000_0001), f64::INFINITY, f64::NEG_INFINITY, 0.0, -0.0, 1.0];
+            for _ in 0..n {
+                let mut p = [0.0; D];
+                for x in p.iter_mut() {
+                    *x = *rng.pick(&vals);
+                }
+                pts.push(p);
+            }
+            eps = 0.5;
+        }
+        8 => {
+            fam = "single_or_constant";
+            let c = {
+                let mut p = [0.0; D];
+                for x in p.iter_mut() {
+                    *x = rng.f64();
+                }
+                p
+            };
+            let k = *rng.pick(&[0usize, 1, 2, 7]);
+            for _ in 0..k {
+                pts.push(c);
+            }
+            eps = *rng.pick(&[0.0, 1e-10, 0.1]);
+        }
+        _ => {
+            fam = "lattice_boundary";
+            // integer lattice scaled by a power of two, epsilon exactly a lattice distance
+            let s = 2f64.powi(rng.range_i64(-10, 10) as i32);
+            for _ in 0..n {
+                let mut p = [0.0; D];
+                for x in p.iter_mut() {
+                    *x = rng.range_i64(-3, 3) as f64 * s;
+                }
+                pts.push(p);
+            }
+            eps = s * *rng.pick(&[1.0, 2.0, 5.0, 1.0000000000000002, 0.9999999999999999]);
+        }
+    }
+    let list = pts.into_iter().enumerate().map(|(k, p)| rec(rng, p, k)).collect();
+    (list, eps, fam)
+}
+
+fn gen_reference<const D: usize>(rng: &mut Rng, input: &[VRec<D>]) -> Vec<VRec<D>> {
+    let mut r: Vec<VRec<D>> = Vec::new();
+    let k = rng.usize(5);
+    for i in 0..k {
+        if !input.is_empty() && rng.chance(3, 4) {
+            let mut p = rng.pick(input).p;
+            if rng.bool() {
+                // flip the sign of zeros: still the same coordinate class
+                for x in p.iter_mut() {
+                    if *x == 0.0 {
+                        *x = -*x;
+                    }
+                }
+            }
+            r.push(rec(rng, p, i));
+        } else {
+            let mut p = [0.0; D];
+            for x in p.iter_mut() {
+                *x = rng.f64() + 10.0;
+            }
+            r.push(rec(rng, p, i));
+        }
+    }
+    r
+}
+
+fn dedup_case<const D: usize>(rng: &mut Rng, out: &mut Out, st: &mut DistStats) {
+    let (list, eps, fam) = gen_dedup_list::<D>(rng);
+    run_dedup_exact(&list, fam, out);
+    if fam != "nonfinite" {
+        run_dedup_epsilon(&list, eps, fam, out, st);
+    }
+    let reference = gen_reference(rng, &list);
+    run_filter(&list, &reference, fam, out);
+}
+
+// =============================================================================================
+// Part D: crate-private orderings and dedup policies, observed through batch construction
+// =============================================================================================
+
+const ORDERS: [(&str, InsertionOrderStrategy); 4] =
+    [("input", InsertionOrderStrategy::Input), ("lexicographic", InsertionOrderStrategy::Lexicographic), ("morton", InsertionOrderStrategy::Morton), ("hilbert", InsertionOrderStrategy::Hilbert)];
+
+fn order_by_name(s: &str) -> Option<InsertionOrderStrategy> {
+    ORDERS.iter().find(|(n, _)| *n == s).map(|(_, o)| *o)
+}
+
+#[derive(Clone, Copy, Debug, PartialEq)]
+enum Pol {
+    Off,
+    Exact,
+    Eps(f64),
+}
+impl Pol {
+    fn name(self) -> &'static str {
+        match self {
+            Pol::Off => "off",
+            Pol::Exact => "exact",
+            Pol::Eps(_) => "epsilon",
+        }
+    }
+    fn lib(self) -> DedupPolicy {
+        match self {
+            Pol::Off => DedupPolicy::Off,
+            Pol::Exact => DedupPolicy::Exact,
+            Pol::Eps(t) => DedupPolicy::Epsilon { tolerance: t },
+        }
+    }
+}
+
+/// What one successful construction exposes.
+struct Observed<const D: usize> {
+    verts: Vec<(Uuid, [f64; D])>,
+    number_of_vertices: usize,
+    inserted: usize,
+    skipped: usize,
+    skip_samples: Vec<Uuid>,
+}
+
+/// Pure checker for one successful construction.
+fn check_construct<const D: usize>(input: &[VRec<D>], pol: Pol, ob: &Observed<D>, st: &mut DistStats) -> (Vec<Finding>, bool) {
+    let mut f = Vec::new();
+    let by_uuid: HashMap<Uuid, usize> = input.iter().enumerate().map(|(i, r)| (r.uuid, i)).collect();
+    // scale for the perturbation allowance
+    let mut diam = 0.0f64;
+    for a in input {
+        for b in input {
+            let d: f64 = (0..D).map(|j| (a.p[j] - b.p[j]).powi(2)).sum::<f64>().sqrt();
+            diam = diam.max(d);
+        }
+    }
+    let allow = 1e-7 * diam.max(1.0);
+    let mut present: HashSet<usize> = HashSet::new();
+    for (u, p) in &ob.verts {
+        let Some(&i) = by_uuid.get(u) else {
+            f.push(finding("vertex_not_from_input", format!("triangulation vertex {} at {:?} has a UUID that is not among the {} inputs", u, p, input.len())));
+            return (f, false);
+        };
+        if !present.insert(i) {
+            f.push(finding("duplicate_uuid", format!("UUID {} (input {}) occurs twice among the triangulation vertices", u, i)));
+            return (f, false);
+        }
+        let q = &input[i].p;
+        if !(0..D).all(|j| p[j].to_bits() == q[j].to_bits() || (p[j] - q[j]).abs() <= allow) {
+            f.push(finding("coords_changed", format!("input {} was supplied at {:?} but the triangulation stores {:?} (allowance {:e})", i, q, p, allow)));
+            return (f, false);
+        }
+    }
+    if ob.number_of_vertices != ob.verts.len() {
+        f.push(finding("vertex_count_mismatch", format!("number_of_vertices() = {} but vertices() yields {}", ob.number_of_vertices, ob.verts.len())));
+        return (f, false);
+    }
+    if ob.inserted != ob.number_of_vertices {
+        f.push(finding("inserted_mismatch", format!("statistics report {} inserted vertices, the triangulation has {}", ob.inserted, ob.number_of_vertices)));
+        return (f, false);
+    }
+    let classes: HashSet<[u64; D]> = input.iter().map(|r| class_key(&r.p)).collect();
+    let accounted = ob.inserted + ob.skipped;
+    match pol {
+        Pol::Off => {
+            if accounted != input.len() {
+                f.push(finding("unaccounted_vertices", format!("{} inputs, but inserted {} + skipped {} = {}", input.len(), ob.inserted, ob.skipped, accounted)));
+            }
+        }
+        Pol::Exact => {
+            if accounted != classes.len() {
+                f.push(finding("unaccounted_vertices", format!("{} distinct coordinate tuples among {} inputs, but inserted {} + skipped {} = {}", classes.len(), input.len(), ob.inserted, ob.skipped, accounted)));
+            }
+        }
+        Pol::Eps(_) => {
+            if accounted > input.len() || (accounted == 0 && !input.is_empty()) {
+                f.push(finding("unaccounted_vertices", format!("{} inputs, inserted {} + skipped {} = {}", input.len(), ob.inserted, ob.skipped, accounted)));
+            }
+        }
+    }
+    if !f.is_empty() {
+        return (f, false);
+    }
+    // Full survivor set (= what the ordering stage handed to the insertion loop), available when
+    // every skipped vertex was sampled.
+    if ob.skip_samples.len() != ob.skipped {
+        return (f, false);
+    }
+    let mut surv: Vec<usize> = present.iter().copied().collect();
+    for u in &ob.skip_samples {
+        match by_uuid.get(u) {
+            Some(&i) if !present.contains(&i) && !surv[present.len()..].contains(&i) => surv.push(i),
+            Some(&i) => {
+                f.push(finding("skipped_and_present", format!("input {} (UUID {}) is reported as skipped but is also a vertex of the result / skipped twice", i, u)));
+                return (f, false);
+            }
+            None => {
+                f.push(finding("skipped_not_from_input", format!("skip sample UUID {} is not among the inputs", u)));
+                return (f, false);
+            }
+        }
+    }
+    surv.sort_unstable();
+    let out_recs: Vec<VRec<D>> = surv.iter().map(|&i| input[i].clone()).collect();
+    match pol {
+        Pol::Off => {
+            if surv.len() != input.len() {
+                let missing = (0..input.len()).find(|i| !surv.contains(i));
+                f.push(finding("ordering_lost_vertex", format!("input {:?} is neither a vertex of the result nor reported as skipped", missing.map(|i| (i, input[i].p)))));
+            }
+        }
+        Pol::Exact => {
+            for x in check_exact(input, &out_recs).0 {
+                f.push(finding(&format!("policy_exact/{}", x.sig), x.desc));
+            }
+        }
+        Pol::Eps(t) => {
+            for x in check_epsilon(input, &out_recs, t, st) {
+                f.push(finding(&format!("policy_epsilon/{}", x.sig), x.desc));
+            }
+        }
+    }
+    (f, true)
+}
+
+fn construct_replay<const D: usize>(input: &[VRec<D>], order: &str, pol: Pol, fam: &str) -> Value {
+    let tol = if let Pol::Eps(t) = pol { Some(t) } else { None };
+    json!({
+        "property": P, "kind": "construct", "D": D, "function": "DelaunayTriangulation::new_with_options_and_construction_statistics",
+        "order": order, "policy": pol.name(), "tolerance": tol, "tolerance_bits": tol.map(|t| format!("{:016x}", t.to_bits())),
+        "retry_policy": "Disabled", "family": fam, "vertices": vrec_json(input),
+    })
+}
+
+fn run_construct<const D: usize>(input: &[VRec<D>], order: &str, pol: Pol, fam: &str, out: &mut Out, st: &mut DistStats) {
+    let Some(strategy) = order_by_name(order) else {
+        out.inconclusive("unknown ordering name");
+        return;
+    };
+    out.eval();
+    let tag = format!("construct/{}/{}", order, pol.name());
+    out.count(&format!("construct/D{}/cases", D));
+    out.nontrivial(&format!("{}|{}|{}", tag, D, ident_list("c", input, if let Pol::Eps(t) = pol { t.to_bits() } else { 0 })));
+    let verts: Vec<Vertex<f64, (), D>> = input.iter().map(|r| mk_vertex::<(), D>(r.p, r.uuid, None)).collect();
+    let options = ConstructionOptions::default().with_insertion_order(strategy).with_dedup_policy(pol.lib()).with_retry_policy(RetryPolicy::Disabled);
+    let r = guard(|| {
+        DelaunayTriangulation::new_with_options_and_construction_statistics(&verts, options).map(|(dt, stats)| Observed::<D> {
+            verts: dt.vertices().map(|(_, v)| (v.uuid(), *v.point().coords())).collect(),
+            number_of_vertices: dt.number_of_vertices(),
+            inserted: stats.inserted,
+            skipped: stats.total_skipped(),
+            skip_samples: stats.skip_samples.iter().map(|s| s.uuid).collect(),
+        }).map_err(|e| e.to_string())
+    });
+    match r {
+        Err(pi) => out.panic(P, &pi, "new_with_options_and_construction_statistics", construct_replay(input, order, pol, fam)),
+        Ok(Err(_)) => out.count(&format!("{}/construction_err(not judged)", tag)),
+        Ok(Ok(ob)) => {
+            out.count(&format!("{}/ok", tag));
+            out.add("construct/vertices_accounted", (ob.inserted + ob.skipped) as u64);
+            out.add("construct/vertices_skipped_by_insertion", ob.skipped as u64);
+            let removed_by_policy = input.len().saturating_sub(ob.inserted + ob.skipped);
+            out.add(&format!("construct/removed_by_policy_{}", pol.name()), removed_by_policy as u64);
+            let (fs, full) = check_construct(input, pol, &ob, st);
+            out.count(if full { "construct/full_survivor_set_checked" } else { "construct/count_only_checked" });
+            for f in fs {
+                out.violation(P, &format!("construct/{}/{}/{}", order, pol.name(), f.sig), format!("{} (D={}, {} inputs): {}", tag, D, input.len(), f.desc), construct_replay(input, order, pol, fam));
+            }
+        }
+    }
+}
+
+fn gen_construct_points<const D: usize>(rng: &mut Rng) -> (Vec<VRec<D>>, &'static str) {
+    let n = 6 + rng.usize(20);
+    let mut pts: Vec<[f64; D]> = Vec::with_capacity(n + 6);
+    let lattice = |rng: &mut Rng, m: i64| {
+        let mut p = [0.0; D];
+        for x in p.iter_mut() {
+            *x = rng.range_i64(0, m - 1) as f64 / m as f64;
+        }
+        p
+    };
+    let fam: &'static str = match rng.usize(6) {
+        0 | 1 => {
+            for _ in 0..n {
+                pts.push(lattice(rng, 1024));
+            }
+            "dyadic_random"
+        }
+        2 => {
+            for _ in 0..n {
+                pts.push(lattice(rng, 1024));
+            }
+            for _ in 0..1 + rng.usize(4) {
+                let p = *rng.pick(&pts);
+                pts.push(p);
+            }
+            rng.shuffle(&mut pts);
+            "exact_duplicates"
+        }
+        3 => {
+            for _ in 0..n {
+                let mut p = lattice(rng, 1024);
+                if rng.chance(1, 3) {
+                    p[rng.usize(D)] = 0.0;
+                }
+                pts.push(p);
+            }
+            for _ in 0..1 + rng.usize(3) {
+                let mut p = *rng.pick(&pts);
+                for x in p.iter_mut() {
+                    if *x == 0.0 {
+                        *x = -0.0;
+                    }
+                }
+                pts.push(p);
+            }
+            rng.shuffle(&mut pts);
+            "signed_zero_duplicates"
+        }
+        4 => {
+            for _ in 0..n {
+                pts.push(lattice(rng, 1024));
+            }
+            for _ in 0..1 + rng.usize(4) {
+                let mut p = *rng.pick(&pts);
+                p[rng.usize(D)] += rng.range_i64(1, 8) as f64 / 1048576.0;
+                pts.push(p);
+            }
+            rng.shuffle(&mut pts);
+            "near_duplicates"
+        }
+        _ => {
+            for _ in 0..n {
+                pts.push(lattice(rng, 8));
+            }
+            "coarse_grid_ties"
+        }
+    };
+    (pts.into_iter().enumerate().map(|(k, p)| VRec { uuid: rng.uuid(), p, data: Some(k as i32) }).collect(), fam)
+}
+
+fn construct_case<const D: usize>(rng: &mut Rng, out: &mut Out, st: &mut DistStats, all_combos: bool) {
+    let (input, fam) = gen_construct_points::<D>(rng);
+    out.count(&format!("construct/family/{}", fam));
+    let tol = *rng.pick(&[1.0 / 256.0 + 1.0 / 8192.0, 1e-9, 0.05, 1.0 / 1048576.0 * 4.5]);
+    let pols = [Pol::Off, Pol::Exact, Pol::Eps(tol)];
+    if all_combos {
+        for (oname, _) in ORDERS.iter() {
+            for pol in pols {
+                run_construct(&input, oname, pol, fam, out, st);
+            }
+        }
+    } else {
+        let (oname, _) = *rng.pick(&ORDERS);
+        let pol = *rng.pick(&pols);
+        run_construct(&input, oname, pol, fam, out, st);
+    }
+}
+
+// =============================================================================================
+// Self-check: every pure checker must reject a deliberately wrong answer
+// =============================================================================================
+
+fn morton2(c: &[u32; 2], nbits: u32) -> u128 {
+    let mut i = 0u128;
+    for b in (0..nbits).rev() {
+        i = (i << 1) | ((c[0] >> b) & 1) as u128;
+        i = (i << 1) | ((c[1] >> b) & 1) as u128;
+    }
+    i
+}
+
+fn selfcheck(out: &mut Out) {
+    let mut failed: Vec<&str> = Vec::new();
+    let mut expect = |name: &'static str, ok: bool, out: &mut Out| {
+        out.count(if ok { "selfcheck/detected" } else { "selfcheck/MISSED" });
+        if !ok {
+            failed.push(name);
+        }
+    };
+    // curve: Z-order is a bijection but not continuous; a clamped curve is not injective;
+    // the genuine boustrophedon scan is accepted.
+    let r = check_curve::<2>(3, &mut |cells| Ok(cells.iter().map(|c| morton2(c, 3)).collect()));
+    expect("curve: z-order must fail adjacency only", r.findings.iter().any(|(f, _)| f.sig == "adjacency") && !r.findings.iter().any(|(f, _)| f.sig == "bijection"), out);
+    let r = check_curve::<2>(3, &mut |cells| Ok(cells.iter().map(|c| morton2(c, 3).min(62)).collect()));
+    expect("curve: collision must fail bijection", r.findings.iter().any(|(f, _)| f.sig == "bijection"), out);
+    let r = check_curve::<2>(3, &mut |cells| Ok(cells.iter().map(|c| morton2(c, 3) + 1).collect()));
+    expect("curve: shifted range must fail", r.findings.iter().any(|(f, _)| f.sig == "range"), out);
+    let r = check_curve::<2>(3, &mut |cells| Ok(cells.iter().map(|c| (c[1] * 8 + if c[1] % 2 == 0 { c[0] } else { 7 - c[0] }) as u128).collect()));
+    expect("curve: snake scan must pass", r.findings.is_empty() && r.cells == 64 && r.steps == 63, out);
+
+    // sort checkers
+    let items: Vec<(usize, [f64; 1])> = vec![(0, [0.5]), (1, [0.25]), (2, [0.5])];
+    let keys: Vec<Key<1>> = vec![(2, [2]), (1, [1]), (2, [2])];
+    expect("sort: correct stable order passes", check_sorted_items(&items, &[items[1], items[0], items[2]], Some(&keys), true).is_empty(), out);
+    expect("sort: instability detected", check_sorted_items(&items, &[items[1], items[2], items[0]], Some(&keys), true).iter().any(|f| f.sig == "not_stable"), out);
+    expect("sort: instability tolerated for the unstable helper", check_sorted_items(&items, &[items[1], items[2], items[0]], Some(&keys), false).is_empty(), out);
+    expect("sort: disorder detected", check_sorted_items(&items, &[items[0], items[1], items[2]], Some(&keys), false).iter().any(|f| f.sig == "not_sorted"), out);
+    expect("sort: lost item detected", check_sorted_items(&items, &[items[1], items[0], items[0]], Some(&keys), false).iter().any(|f| f.sig == "not_permutation"), out);
+    expect("sort: altered coordinate detected", check_sorted_items(&items, &[items[1], (0, [-0.5]), items[2]], Some(&keys), false).iter().any(|f| f.sig == "not_permutation"), out);
+
+    // dedup checkers
+    let mut rng = Rng::new(0xC17);
+    let mk = |rng: &mut Rng, p: [f64; 2], k: usize| VRec::<2> { uuid: rng.uuid(), p, data: Some(k as i32) };
+    let input = vec![mk(&mut rng, [0.0, 0.0], 0), mk(&mut rng, [-0.0, 0.0], 1), mk(&mut rng, [1.0, 0.0], 2), mk(&mut rng, [1.05, 0.0], 3), mk(&mut rng, [3.0, 0.0], 4)];
+    let pick = |ix: &[usize]| ix.iter().map(|&i| input[i].clone()).collect::<Vec<_>>();
+    expect("exact: correct answer passes", check_exact(&input, &pick(&[0, 2, 3, 4])).0.is_empty(), out);
+    expect("exact: signed-zero duplicate kept", check_exact(&input, &pick(&[0, 1, 2, 3, 4])).0.iter().any(|f| f.sig == "duplicate_kept"), out);
+    expect("exact: unique dropped", check_exact(&input, &pick(&[0, 2, 4])).0.iter().any(|f| f.sig == "unique_dropped"), out);
+    expect("exact: same vertex twice", check_exact(&input, &pick(&[0, 2, 2, 3, 4])).0.iter().any(|f| f.sig == "not_from_input"), out);
+    let mut invented = pick(&[0, 2, 3, 4]);
+    invented[1].p[1] = 1e-300;
+    expect("exact: altered coordinate", check_exact(&input, &invented).0.iter().any(|f| f.sig == "not_from_input"), out);
+    let mut st = DistStats::default();
+    expect("epsilon: correct answer passes", check_epsilon(&input, &pick(&[0, 2, 4]), 0.1, &mut st).is_empty(), out);
+    expect("epsilon: close survivors detected", check_epsilon(&input, &pick(&[0, 2, 3, 4]), 0.1, &mut st).iter().any(|f| f.sig == "survivors_too_close"), out);
+    expect("epsilon: far drop detected", check_epsilon(&input, &pick(&[0, 2]), 0.1, &mut st).iter().any(|f| f.sig == "dropped_far_from_survivors"), out);
+    expect("epsilon: boundary distance tolerated", check_epsilon(&input, &pick(&[0, 2, 3, 4]), 0.05, &mut st).is_empty(), out);
+    let tiny = vec![mk(&mut rng, [1e-200, 0.0], 0), mk(&mut rng, [1e-200, 0.0], 1)];
+    expect("epsilon: exact path below f64 range", check_epsilon(&tiny, &tiny, 3e-200, &mut st).iter().any(|f| f.sig == "survivors_too_close") && st.exact > 0, out);
+    expect("filter: correct answer passes", check_filter(&input, &pick(&[1]), &pick(&[2, 3, 4])).0.is_empty(), out);
+    expect("filter: excluded vertex kept", check_filter(&input, &pick(&[1]), &pick(&[0, 2, 3, 4])).0.iter().any(|f| f.sig == "wrong_result"), out);
+    expect("filter: vertex lost", check_filter(&input, &pick(&[1]), &pick(&[2, 4])).0.iter().any(|f| f.sig == "wrong_result"), out);
+
+    // construction checker
+    let ob = |ix: &[usize], inserted: usize, skipped: usize, samples: &[usize]| Observed::<2> {
+        verts: ix.iter().map(|&i| (input[i].uuid, input[i].p)).collect(),
+        number_of_vertices: ix.len(),
+        inserted,
+        skipped,
+        skip_samples: samples.iter().map(|&i| input[i].uuid).collect(),
+    };
+    expect("construct: off, all accounted", check_construct(&input, Pol::Off, &ob(&[0, 2, 3, 4], 4, 1, &[1]), &mut st).0.is_empty(), out);
+    expect("construct: off, vertex lost", check_construct(&input, Pol::Off, &ob(&[0, 2, 4], 3, 1, &[1]), &mut st).0.iter().any(|f| f.sig == "unaccounted_vertices"), out);
+    expect("construct: off, wrong vertex reported skipped", check_construct(&input, Pol::Off, &ob(&[0, 2, 3, 4], 4, 1, &[0]), &mut st).0.iter().any(|f| f.sig == "skipped_and_present"), out);
+    expect("construct: exact, one per class", check_construct(&input, Pol::Exact, &ob(&[1, 2, 3, 4], 4, 0, &[]), &mut st).0.is_empty(), out);
+    expect("construct: exact, class lost", check_construct(&input, Pol::Exact, &ob(&[1, 2, 3], 3, 0, &[]), &mut st).0.iter().any(|f| f.sig == "unaccounted_vertices"), out);
+    expect("construct: exact, duplicate class kept", check_construct(&input, Pol::Exact, &ob(&[0, 1, 2, 3], 4, 0, &[]), &mut st).0.iter().any(|f| f.sig.starts_with("policy_exact/")), out);
+    expect("construct: epsilon, survivors too close", check_construct(&input, Pol::Eps(0.1), &ob(&[0, 2, 3, 4], 4, 0, &[]), &mut st).0.iter().any(|f| f.sig == "policy_epsilon/survivors_too_close"), out);
+    expect("construct: inserted mismatch", check_construct(&input, Pol::Off, &ob(&[0, 2, 3, 4], 5, 0, &[]), &mut st).0.iter().any(|f| f.sig == "inserted_mismatch"), out);
+    let mut moved = ob(&[0, 1, 2, 3, 4], 5, 0, &[]);
+    moved.verts[2].1[0] += 1e-3;
+    expect("construct: moved vertex", check_construct(&input, Pol::Off, &moved, &mut st).0.iter().any(|f| f.sig == "coords_changed"), out);
+    let mut foreign = ob(&[0, 1, 2, 3, 4], 5, 0, &[]);
+    foreign.verts[0].0 = rng.uuid();
+    expect("construct: foreign uuid", check_construct(&input, Pol::Off, &foreign, &mut st).0.iter().any(|f| f.sig == "vertex_not_from_input"), out);
+
+    if !failed.is_empty() {
+        out.notes.push(format!("HARNESS-ERROR C17 selfcheck: checker failed to behave as expected on: {:?}", failed));
+        out.inconclusive("C17 selfcheck failed");
+    }
+}
+
+// =============================================================================================
+// Replay
+// =============================================================================================
+
+fn parse_pt<const D: usize>(v: &Value) -> Option<[f64; D]> {
+    let b = v.get("bits")?.as_array()?;
+    if b.len() != D {
+        return None;
+    }
+    let mut p = [0.0; D];
+    for (i, x) in b.iter().enumerate() {
+        p[i] = f64::from_bits(u64::from_str_radix(x.as_str()?, 16).ok()?);
+    }
+    Some(p)
+}
+fn parse_f64_bits(v: &Value) -> Option<f64> {
+    Some(f64::from_bits(u64::from_str_radix(v.as_str()?, 16).ok()?))
+}
+fn parse_vrecs<const D: usize>(v: &Value) -> Option<Vec<VRec<D>>> {
+    v.as_array()?
+        .iter()
+        .map(|r| Some(VRec { uuid: Uuid::parse_str(r.get("uuid")?.as_str()?).ok()?, p: parse_pt::<D>(r)?, data: r.get("data").and_then(Value::as_i64).map(|d| d as i32) }))
+        .collect()
+}
+
+fn replay_d<const D: usize>(doc: &Value, out: &mut Out) {
+    let mut st = DistStats::default();
+    let ok: Option<()> = (|| {
+        match doc["kind"].as_str()? {
+            "hilbert_exhaustive" => {
+                let b = doc["bits"].as_u64()? as u32;
+                if b == 0 || D as u32 * b > 24 {
+                    return None;
+                }
+                exhaustive_pair::<D>(b, out);
+            }
+            "hilbert_sampled" => {
+                let b = doc["bits"].as_u64()? as u32;
+                let c = doc["cell"].as_array()?;
+                if c.len() != D || b == 0 || b > 31 {
+                    return None;
+                }
+                let mut cell = [0u32; D];
+                for (j, x) in c.iter().enumerate() {
+                    cell[j] = x.as_u64()? as u32;
+                }
+                let mut rng = Rng::new(0);
+                sampled_curve::<D>(&mut rng, out, Some((b, cell)));
+            }
+            "hilbert_list" => {
+                let b = doc["bits"].as_u64()? as u32;
+                let bb = doc["bounds"]["bits"].as_array()?;
+                let bounds = (parse_f64_bits(&bb[0])?, parse_f64_bits(&bb[1])?);
+                let coords: Vec<[f64; D]> = doc["coords"].as_array()?.iter().map(parse_pt::<D>).collect::<Option<_>>()?;
+                run_hilbert_list(&coords, bounds, b, doc["family"].as_str().unwrap_or("replay"), out);
+            }
+            "dedup" => {
+                let input = parse_vrecs::<D>(&doc["vertices"])?;
+                let fam = doc["family"].as_str().unwrap_or("replay");
+                match doc["function"].as_str()? {
+                    "dedup_vertices_exact" => run_dedup_exact(&input, fam, out),
+                    "dedup_vertices_epsilon" => run_dedup_epsilon(&input, parse_f64_bits(&doc["tolerance_bits"])?, fam, out, &mut st),
+                    "filter_vertices_excluding" => run_filter(&input, &parse_vrecs::<D>(&doc["reference"])?, fam, out),
+                    _ => return None,
+                }
+            }
+            "construct" => {
+                let input = parse_vrecs::<D>(&doc["vertices"])?;
+                let pol = match doc["policy"].as_str()? {
+                    "off" => Pol::Off,
+                    "exact" => Pol::Exact,
+                    "epsilon" => Pol::Eps(parse_f64_bits(&doc["tolerance_bits"])?),
+                    _ => return None,
+                };
+                run_construct(&input, doc["order"].as_str()?, pol, doc["family"].as_str().unwrap_or("replay"), out, &mut st);
+            }
+            _ => return None,
+        }
+        Some(())
+    })();
+    if ok.is_none() {
+        out.inconclusive("bad replay document");
+    }
+    out.add("distance_comparisons/f64_shortcut", st.fast);
+    out.add("distance_comparisons/exact", st.exact);
+}
+
+// =============================================================================================
+// Entry point
+// =============================================================================================
+
+pub fn run(ctx: &Ctx, out: &mut Out) {
+    out.exhaustive = Some(false); // curve sub-spaces are complete; lists and constructions are sampled
+    if let Some(doc) = &ctx.replay {
+        match doc["D"].as_u64() {
+            Some(d @ 1..=5) => d15!(d, replay_d, (doc, out)),
+            _ => out.inconclusive("bad replay document"),
+        }
+        return;
+    }
+    selfcheck(out);
+    exhaustive_phase(ctx, out);
+    out.add("wall_ms/after_exhaustive", (ctx.elapsed() * 1000.0) as u64);
+
+    let mut st = DistStats::default();
+    let thorough = ctx.tier == Tier::Thorough;
+    let cap_rounds = ((if thorough { 40_000.0 } else { 1_500.0 }) * ctx.scale) as u64;
+    let mut round = 0u64;
+    while round < cap_rounds && !ctx.out_of_time() {
+        // Hilbert lists and sampled curve cells, all dimensions
+        for d in 1..=5usize {
+            for k in 0..4u64 {
+                let mut rng = Rng::new(ctx.case_seed((1u64 << 40) | (round * 64 + d as u64 * 8 + k)));
+                fn hl<const D: usize>(rng: &mut Rng, out: &mut Out, first: bool) {
+                    let (coords, bounds, nbits, fam) = gen_hilbert_list::<D>(rng);
+                    if first && D == 2 {
+                        out.sample(json!({"kind": "hilbert_list", "D": D, "bits": nbits, "bounds": [bounds.0, bounds.1], "family": fam, "n": coords.len(), "first_points": coords.iter().take(3).map(|c| c.to_vec()).collect::<Vec<_>>()}));
+                    }
+                    run_hilbert_list(&coords, bounds, nbits, fam, out);
+                    for _ in 0..4 {
+                        sampled_curve::<D>(rng, out, None);
+                    }
+                }
+                d15!(d, hl, (&mut rng, out, round == 0 && k == 0));
+            }
+        }
+        if ctx.out_of_time() {
+            break;
+        }
+        // dedup helpers, all dimensions
+        for d in 1..=5usize {
+            for k in 0..3u64 {
+                let mut rng = Rng::new(ctx.case_seed((2u64 << 40) | (round * 64 + d as u64 * 8 + k)));
+                d15!(d, dedup_case, (&mut rng, out, &mut st));
+            }
+        }
+        if ctx.out_of_time() {
+            break;
+        }
+        // constructions: D = 2 and 3, every ordering x every policy on the same point set
+        {
+            let mut rng = Rng::new(ctx.case_seed((3u64 << 40) | round));
+            if round % 2 == 0 {
+                construct_case::<2>(&mut rng, out, &mut st, true);
+            } else {
+                construct_case::<3>(&mut rng, out, &mut st, true);
+            }
+        }
+        round += 1;
+    }
+    if ctx.out_of_time() {
+        out.count("random/stopped_by_budget");
+    }
+    out.add("random/rounds", round);
+    out.add("distance_comparisons/f64_shortcut", st.fast);
+    out.add("distance_comparisons/exact", st.exact);
+    out.sample(json!({
+        "exhaustive_subspaces": format!("every cell of [0,2^bits)^D for all (D,bits) with D in 1..=5 and D*bits <= {} assigned to this shard (see hilbert/exhaustive/*_done)", if thorough { 20 } else { 14 }),
+        "sampled": "Hilbert lists (ties, signed zeros, extremes, non-finite, degenerate bounds, invalid bits), dedup lists (D=1..5), constructions (D=2,3; 4 orderings x Off/Exact/Epsilon)"
+    }));
 }
